@@ -28,7 +28,7 @@ Proof. cbn [length]. rewrite Nat2N.inj_succ, N.pow_succ_r'. reflexivity. Qed.
 Lemma sign_ext_0 y t : y < 128 -> int_of_bytes (0 :: y :: t) = int_of_bytes (y :: t).
 Proof.
   intros Hy. rewrite !int_of_bytes_eq. rewrite (be_value_cons 0).
-  destruct (N.leb_spec 128 0); [lia|]. destruct (N.leb_spec 128 y); [lia|]. f_equal. lia.
+  destruct (N.leb_spec 128 0); [lia|]. destruct (N.leb_spec 128 y); [lia|]. lia.
 Qed.
 
 Lemma sign_ext_ff y t : wf_bytes (y :: t) = true -> 128 <= y ->
